@@ -189,6 +189,26 @@ def search(ctx, budget):
             b1, b2 = rand_boxes(rng, 2)
             if rng.random() < 0.3:
                 b1 = (b1[0], b1[1], b1[0], b1[1])
+            elif rng.random() < 0.35:
+                # non-dyadic floats (tenths, thirds, uniform) with the two boxes touching exactly along an edge or at a corner:
+                # the closed-interval definition is decided by an exact equality of two doubles, any re-association of the test is not
+                f = rng.choice([lambda: rng.randint(-300, 300) / 10.0, lambda: rng.randint(-90, 90) / 3.0, lambda: rng.uniform(-100, 100)])
+                xs, ys = sorted(f() for _ in range(3)), sorted(f() for _ in range(3))
+                x2 = sorted(f() for _ in range(2))
+                y2 = sorted(f() for _ in range(2))
+                k = rng.randrange(4)
+                if k == 0:
+                    b1, b2 = (xs[0], y2[0], xs[2], ys[1]), (x2[0], ys[1], x2[1], ys[2])        # b2 sits on b1's top edge level
+                elif k == 1:
+                    b1, b2 = (xs[0], ys[0], xs[1], ys[2]), (xs[1], y2[0], xs[2], y2[1])        # b2 starts at b1's right edge
+                elif k == 2:
+                    b1, b2 = (xs[0], ys[0], xs[1], ys[1]), (xs[1], ys[1], xs[2], ys[2])        # corner to corner
+                else:
+                    b1, b2 = (xs[0], ys[1], xs[2], ys[1]), (x2[0], ys[0], x2[1], ys[1])        # zero-height box on b2's top edge
+                norm = lambda b: (min(b[0], b[2]), min(b[1], b[3]), max(b[0], b[2]), max(b[1], b[3]))
+                b1, b2 = norm(b1), norm(b2)
+                if rng.random() < 0.5:
+                    b1, b2 = b2, b1
             p = rng.choice([(float(rng.randint(-35, 65)), float(rng.randint(-35, 65))), (b1[0], b1[1]), (b1[2], b1[3]),
                             ((b1[0] + b1[2]) / 2, (b1[1] + b1[3]) / 2), (b1[0], (b1[1] + b1[3]) / 2)])
             inp = {"b1": b1, "b2": b2, "p": p}
